@@ -5,6 +5,9 @@
                S.ow.v  =      A.ow.v +=     B.ow.v -=     O.ow.v |=     N.ow.v &=
                P.v.i Add(v,i) Q.v.i Subtract(v,i)   M.v *=   D.v Divide   L.k <<=   R.k >>=
                F FindFirstBit   G FindLastBit   C.v comparisons   T.tw narrowing   K.ow.v copy-assign   X Clear
+               E.v /=   V.ow.v x = std::move(BigInt{v}) (returns the moved-from object's code)   W move-construct
+               from x and move-assign back   Y copy-construct, Clear, copy-assign back   Z self move-assign
+               U.i.v.k Storage()[i] = v; SetIndex(k)
         impl = step;step;...   step = index:words:ret   (words: comma list, trailing zeros trimmed, "-" = none)
      M <t> <hw> <a> <m> <impl>      DoubleSize<uint<t>, hw>::Multiply      impl = lo,hi
      D <t> <hw> <hi> <lo> <d> <impl>   DoubleSize<uint<t>, hw>::Divide     impl = rem,quo
@@ -31,6 +34,12 @@ let parse_op (s : string) : op =
   | ["T"; tw] -> ONarrow (n_of_string tw)
   | ["K"; ow; v] -> OCopy (n_of_string ow, n_of_string v)
   | ["X"] -> OClear
+  | ["E"; v] -> ODivAssign (n_of_string v)
+  | ["V"; ow; v] -> OMoveAssign (n_of_string ow, n_of_string v)
+  | ["W"] -> OMoveRound
+  | ["Y"] -> OCopyRound
+  | ["Z"] -> OSelfMove
+  | ["U"; i; v; k] -> OPoke (nat_of_int (int_of_string i), n_of_string v, nat_of_int (int_of_string k))
   | _ -> failwith "bad op"
 
 let rec trim_rev = function N0 :: t -> trim_rev t | l -> l
